@@ -1132,14 +1132,14 @@ class Interp:
     def ev_Starred(self, node):
         raise Unsupported("bare starred", node, self.site(node))
 
-    def _comp(self, node, gens, emit):
+    def _comp(self, node, gens, emit, first_iter=None, frame=None):
         """Comprehension driver: nested generators over concrete or abstract iterables."""
         def rec(i):
             if i == len(gens):
                 emit()
                 return True
             g = gens[i]
-            it = self.eval(g.iter)
+            it = first_iter if (i == 0 and first_iter is not None) else self.eval(g.iter)
             items = self.concrete_items(it)
             if items is None or len(items) > 64:
                 # abstract: one generic element
@@ -1168,15 +1168,25 @@ class Interp:
 
         # comprehensions have their own scope; emulate with a child frame sharing lookup
         fr = self.frames[-1]
-        child = Frame(fr.func, fr.module, {}, fr.self_cls, closure=fr)
+        child = frame if frame is not None else Frame(fr.func, fr.module, {}, fr.self_cls, closure=fr)
+        child.is_comp = True
+        child.deferred = []
         self.frames.append(child)
         try:
             concrete = True
             g0 = gens[0]
-            it0 = self.eval(g0.iter)
+            it0 = first_iter if first_iter is not None else self.eval(g0.iter)
             if self.concrete_items(it0) is None or len(self.concrete_items(it0)) > 64:
                 concrete = False
             rec(0)
+            # generator expressions created inside this comprehension whose bodies read its loop variables run later: when they
+            # are consumed the loop has finished and every one of them sees the variables' LAST values (only the first iterable
+            # of a generator expression is evaluated where it is written)
+            for ph, gnode, git0 in child.deferred:
+                val = self._genexp_now(gnode, first_iter=git0)
+                ph.__class__ = val.__class__
+                ph.__dict__.clear()
+                ph.__dict__.update(val.__dict__)
         finally:
             self.frames.pop()
         return concrete
@@ -1193,8 +1203,24 @@ class Interp:
         return lv
 
     def ev_GeneratorExp(self, node):
+        fr = self.frames[-1]
+        if getattr(fr, "is_comp", False) and fr.env:
+            # which names the lazily evaluated part reads (everything but the first iterable)
+            lazy = [node.elt] + [c for g in node.generators for c in g.ifs] + [g.iter for g in node.generators[1:]]
+            own = set()
+            for g in node.generators:
+                own |= {n.id for n in ast.walk(g.target) if isinstance(n, ast.Name)}
+            reads = {n.id for part in lazy for n in ast.walk(part) if isinstance(n, ast.Name) and isinstance(n.ctx, ast.Load)} - own
+            if reads & set(fr.env):
+                it0 = self.eval(node.generators[0].iter)
+                ph = VUnknown("genexp-deferred", "iter")
+                fr.deferred.append((ph, node, it0))
+                return ph
+        return self._genexp_now(node)
+
+    def _genexp_now(self, node, first_iter=None):
         out = []
-        concrete = self._comp(node, node.generators, lambda: out.append(self.eval(node.elt)))
+        concrete = self._comp(node, node.generators, lambda: out.append(self.eval(node.elt)), first_iter=first_iter)
         if concrete:
             return VIter(out)
         u = VUnknown("genexp", "iter")
@@ -1574,6 +1600,8 @@ class Interp:
             if m is not None:
                 return VFunc(m, None)
             ca = base.cls.find_class_attr(attr)
+            if ca is not None and isinstance(ca[1], _MUTABLE_DISPLAY):
+                return self.class_attr_value(ca[0], attr, ca[1])  # one object per class, shared by everything that reads it
             if ca is not None:
                 fr = Frame(None, ca[0].module, {})
                 self.frames.append(fr)
@@ -1676,6 +1704,10 @@ class Interp:
         if m is not None:
             return VFunc(m, objv)
         ca = cls.find_class_attr(attr)
+        if ca is not None and isinstance(ca[1], _MUTABLE_DISPLAY):
+            # a dictionary / list written in the class body is ONE object: every instance (of every subclass) that does not
+            # assign the attribute itself reads and mutates that same object
+            return self.class_attr_value(ca[0], attr, ca[1])
         if ca is not None:
             fr = Frame(None, ca[0].module, {})
             self.frames.append(fr)
@@ -2020,6 +2052,9 @@ def _count_term(it):
     if isinstance(it, VUnknown):
         return ("iter", it.tag)
     return ("iter", type(it).__name__)
+
+
+_MUTABLE_DISPLAY = (ast.Dict, ast.List, ast.Set, ast.DictComp, ast.ListComp, ast.SetComp)
 
 
 # ------------------------------------------------------------------------------ exploration
